@@ -62,6 +62,9 @@ T = {
     "C12": (True, "exploration", "differential monitor: symbolic equations / Jacobian evaluated by exact substitution vs numeric model and central differences at random states and parameter settings; use_jacobian on/off trajectories for Radau/BDF/LSODA with a counter on the Jacobian callable",
             "Translatable and shipped-library models in random declaration order, two parameter settings each; simulations (one and two segments with a parameter change) compared with and without Jacobian and with the closed form; unconvertible functions must raise.",
             "Trusted: numeric model (C01), expm closed form; points next to a conditional's kink are skipped for the finite-difference comparison."),
+    "C08": (True, "translation_validation", "round-trip monitor: sbml.write then sbml.read on generated models (expression grammar in real module files, private HOME per worker), re-read model compared with the original at random states; plain-name ablation twin for the open finding",
+            "Outcomes tallied per feature: export raised (NotImplementedError/ValueError = controlled refusal, accepted), export crashed (violation), read failed (violation), equal, different (violation). Every original name must exist with the same initial value, parameter value, derived value, flux and derivative.",
+            "Trusted: the original model evaluated directly. Extra components in the re-read model are allowed. pysbml is a third-party dependency of the import path."),
 }
 PENDING_REASON = "check not built yet in this session (work in progress; design in DESIGN.md section 4)"
 
